@@ -1,3 +1,115 @@
 package main
 
-func c13ClientScenarios(tier string) []Scenario { return nil }
+import (
+	"fmt"
+
+	"github.com/rminnich/go9p/vs"
+)
+
+// client side of C13: the same reply stream parsed under every segmentation
+func c13ClientScenario(msize uint32, dotu bool, ncalls int) Scenario {
+	name := fmt.Sprintf("client msize=%d dotu=%v calls=%d", msize, dotu, ncalls)
+	return Scenario{Name: name, Run: func(rc *RunCtx) *Result {
+		res := &Result{Exhaustive: true, Bounds: map[string]any{"D": 1}}
+		seen := map[string]bool{}
+		total := 0
+		// run: sequential calls (one outstanding) then a final batch of three concurrent ones
+		run := func(cuts []int, chunk int, shift int) string {
+			bad := ""
+			body := func() {
+				c, peer := newClientPair(msize, dotu)
+				ce := peerClientEnd
+				ci := 0
+				ce.Seg = func(avail, want int) int {
+					off := ce.ReadOffset()
+					if chunk > 0 {
+						return chunk - off%chunk
+					}
+					for ci < len(cuts) && cuts[ci] <= off {
+						ci++
+					}
+					if ci < len(cuts) {
+						return cuts[ci] - off
+					}
+					return avail
+				}
+				for i := 0; i < ncalls; i++ {
+					sp := callSpec{[]string{"read", "stat", "write", "walk", "clunk"}[(i+shift)%5], uint32(10 + i)}
+					r := doCall(c, sp)
+					if msg := r.verify("ok", dotu, nil); msg != "" {
+						bad = fmt.Sprintf("call %d (%s fid %d): %s", i, sp.Kind, sp.Fid, msg)
+						return
+					}
+				}
+				peer.Batch = 3
+				peer.OneWrite = true
+				out := make([]*callRes, 3)
+				for i := 0; i < 3; i++ {
+					i := i
+					vs.Go("caller", func() { out[i] = doCall(c, callSpec{[]string{"read", "stat", "walk"}[i], uint32(200 + i)}) })
+				}
+				vs.Idle()
+				for i, r := range out {
+					if r == nil {
+						bad = fmt.Sprintf("concurrent call %d never returned", i)
+						return
+					}
+					if msg := r.verify("ok", dotu, nil); msg != "" {
+						bad = fmt.Sprintf("concurrent call %d: %s", i, msg)
+						return
+					}
+				}
+				total = ce.ReadOffset()
+			}
+			x := vs.Run(nil, body, vs.Options{})
+			if len(x.Panics) > 0 {
+				return "panic: " + x.Panics[0].Value
+			}
+			return bad
+		}
+		if b := run(nil, 0, 0); b != "" {
+			res.Findings = append(res.Findings, Finding{Sig: "C13/client/reference-run-failed", Msg: b})
+			return res
+		}
+		try := func(cuts []int, chunk, shift int, what string) {
+			if rc.Expired() {
+				res.Exhaustive = false
+				res.CapHit = "internal deadline"
+				return
+			}
+			b := run(cuts, chunk, shift)
+			res.Evals++
+			res.Nontrivial++
+			res.States++
+			res.Traces++
+			res.Transitions += int64(len(cuts) + 1)
+			if b != "" {
+				sig := "C13/client/" + sigWords(b)
+				if !seen[sig] {
+					seen[sig] = true
+					res.Findings = append(res.Findings, Finding{Sig: sig, Msg: fmt.Sprintf("%s, %s: %s", name, what, b)})
+				}
+			}
+		}
+		N := total
+		for k := 1; k < N; k++ {
+			try([]int{k}, 0, 0, fmt.Sprintf("reply stream split at %d", k))
+		}
+		m := int(msize)
+		for _, ch := range []int{1, 2, 3, 5, 7, 11, m - 1, m, m + 1, 8*m - 1, 8 * m, 8*m + 1} {
+			for shift := 0; shift < 5; shift++ {
+				try(nil, ch, shift, fmt.Sprintf("chunks of %d, call mix %d", ch, shift))
+			}
+		}
+		res.Samples = append(res.Samples, fmt.Sprintf("%d sequential calls + 3 concurrent ones, reply stream of %d bytes: every single split, 12 chunk sizes x 5 call mixes", ncalls, N))
+		return res
+	}}
+}
+
+func c13ClientScenarios(tier string) []Scenario {
+	out := []Scenario{c13ClientScenario(96, false, 40), c13ClientScenario(128, true, 40)}
+	if tier == "thorough" {
+		out = append(out, c13ClientScenario(256, false, 80), c13ClientScenario(8192, true, 30))
+	}
+	return out
+}
